@@ -135,7 +135,11 @@ def run(ctx):
                     continue
                 npk += 1
                 if sd.norm(st['state']['act']).get('packok') is False and r_['mismatch'] is None:
-                    ctx.violation({'kind': 'pack-relation', 'storage': kind, 'gc': bool(sd.norm(st['args'])[1])},
+                    names = ('snapshot-at-or-after-T-differs', 'tail-differs', 'revision-invented', 'removed-what-it-may-not')
+                    failing = [n for n, ok in zip(names, sd.norm(st['state']['act'])['clauses']) if not ok]
+                    undo_after = any(x['action'] == 'Undo' for x in b[:b.index(st)])
+                    ctx.violation({'kind': 'pack-relation', 'storage': kind, 'gc': bool(sd.norm(st['args'])[1]), 'clauses': '+'.join(failing),
+                                   'undo_before_pack': undo_after},
                                   '%s storage: the pack %r of this history does not satisfy the C07 relation PackOK (the '
                                   'specification is the transcription of the packer, which the real storage followed call by call: '
                                   'it observably changes a snapshot at or after the pack time, or removes what it may not); calls: %s' % (
